@@ -35,87 +35,8 @@ func runC11(c *report.Ctx) {
 	rulePrefixTerminated(c)
 
 	// ---- (2) writer exclusion ----------------------------------------------------------------------
-	c.Rule("writer-lock", "BeginTx acquires LevelDB.muTr and returns holding it; Commit and Rollback release it exactly when the transaction is a write transaction", 4)
-	beginTx := fn(c, pkgLDB, "LevelDB", "BeginTx")
-	beginRead := fn(c, pkgLDB, "LevelDB", "BeginReadTx")
-	commit := fn(c, pkgLDB, "transaction", "Commit")
-	rollback := fn(c, pkgLDB, "transaction", "Rollback")
-	isMu := func(in ssa.Instruction, name string) bool {
-		cc := an.CallOf(in)
-		if cc == nil || cc.StaticCallee() == nil || an.FuncKey(cc.StaticCallee()) != "(*sync.Mutex)."+name {
-			return false
-		}
-		if _, isDefer := in.(*ssa.Defer); isDefer {
-			return false
-		}
-		d := p.Desc(cc.Args[0])
-		return strings.HasSuffix(d, ".muTr")
-	}
-	if beginTx != nil {
-		w := p.MustPassOnSuccess(beginTx, func(in ssa.Instruction) bool { return isMu(in, "Lock") })
-		unl := false
-		an.Instrs(beginTx, func(in ssa.Instruction) {
-			cc := an.CallOf(in)
-			if cc != nil && cc.StaticCallee() != nil && an.FuncKey(cc.StaticCallee()) == "(*sync.Mutex).Unlock" {
-				unl = true
-			}
-		})
-		if w == nil && !unl {
-			c.OK(sk(beginTx)+":returns-holding-muTr", "Lock on every path, no Unlock", p.Pos(beginTx.Pos()))
-		} else {
-			c.Fail(sk(beginTx)+":returns-holding-muTr", "BeginTx does not return holding the writer mutex: two write transactions can run at once on the shared batch", p.Pos(beginTx.Pos()), w...)
-		}
-	}
-	if beginRead != nil {
-		bad := false
-		an.Instrs(beginRead, func(in ssa.Instruction) {
-			if isMu(in, "Lock") {
-				bad = true
-			}
-		})
-		if bad {
-			c.Fail(sk(beginRead)+":no-lock", "BeginReadTx takes the writer mutex, but a read transaction's Rollback never releases it", p.Pos(beginRead.Pos()))
-		} else {
-			c.OK(sk(beginRead)+":no-lock", "read transactions do not take the writer mutex", p.Pos(beginRead.Pos()))
-		}
-	}
+	ruleWriterLock(c)
 	notRO := func(a an.Atom) bool { return a.Op == token.ILLEGAL && !a.Truth && strings.HasSuffix(p.Desc(a.X), ".readOnly") }
-	isRO := func(a an.Atom) bool { return a.Op == token.ILLEGAL && a.Truth && strings.HasSuffix(p.Desc(a.X), ".readOnly") }
-	for _, f := range []*ssa.Function{commit, rollback} {
-		if f == nil {
-			continue
-		}
-		// every return not under readOnly passes Unlock; no Unlock under readOnly
-		s := &an.Search{P: p, Fn: f, Cut: func(in ssa.Instruction) bool { return isMu(in, "Unlock") }, GoalReturn: func(r *ssa.Return, pred *ssa.BasicBlock) bool {
-			gs := p.Guards(r.Block())
-			if pred != nil {
-				if ea := edgeAtoms(p, pred, r.Block()); ea != nil {
-					gs = append(gs, *ea)
-				}
-				gs = append(gs, p.Guards(pred)...)
-			}
-			return !an.AnyAtom(gs, isRO)
-		}}
-		key := sk(f) + ":releases-muTr"
-		if w := s.Run(f.Blocks[0], 0, nil); w != nil {
-			c.Fail(key, "a write transaction can end without releasing the writer mutex: every later write transaction blocks forever", p.Pos(f.Pos()), w...)
-		} else {
-			c.OK(key, "Unlock on every non-read-only path", p.Pos(f.Pos()))
-		}
-		badRO := false
-		an.Instrs(f, func(in ssa.Instruction) {
-			if isMu(in, "Unlock") && !an.AnyAtom(p.GuardsOf(in), notRO) && f == rollback {
-				badRO = true
-			}
-		})
-		if f == rollback {
-			if badRO {
-				c.Fail(sk(f)+":no-unlock-for-readers", "Rollback of a read transaction unlocks a mutex it never took", p.Pos(f.Pos()))
-			} else {
-				c.OK(sk(f)+":no-unlock-for-readers", "Unlock only under !readOnly", p.Pos(f.Pos()))
-			}
-		}
-	}
 
 	// ---- (3) read-only guard ------------------------------------------------------------------------------
 	c.Rule("readonly-guard", "batch.Put/batch.Delete are reached only under !tx.readOnly (locally or in every ldb caller)", 8)
@@ -492,4 +413,90 @@ func setKeyClass(p *an.Prog, k ssa.Value) string {
 		return "bucket-name"
 	}
 	return "other:" + d
+}
+
+// ruleWriterLock is shared by C11/C20: the single-writer mutex is held from BeginTx to Commit/Rollback and released on every path.
+func ruleWriterLock(c *report.Ctx) {
+	p := c.P
+	c.Rule("writer-lock", "BeginTx acquires LevelDB.muTr and returns holding it; Commit and Rollback release it exactly when the transaction is a write transaction", 4)
+	beginTx := fn(c, pkgLDB, "LevelDB", "BeginTx")
+	beginRead := fn(c, pkgLDB, "LevelDB", "BeginReadTx")
+	commit := fn(c, pkgLDB, "transaction", "Commit")
+	rollback := fn(c, pkgLDB, "transaction", "Rollback")
+	isMu := func(in ssa.Instruction, name string) bool {
+		cc := an.CallOf(in)
+		if cc == nil || cc.StaticCallee() == nil || an.FuncKey(cc.StaticCallee()) != "(*sync.Mutex)."+name {
+			return false
+		}
+		if _, isDefer := in.(*ssa.Defer); isDefer {
+			return false
+		}
+		d := p.Desc(cc.Args[0])
+		return strings.HasSuffix(d, ".muTr")
+	}
+	if beginTx != nil {
+		w := p.MustPassOnSuccess(beginTx, func(in ssa.Instruction) bool { return isMu(in, "Lock") })
+		unl := false
+		an.Instrs(beginTx, func(in ssa.Instruction) {
+			cc := an.CallOf(in)
+			if cc != nil && cc.StaticCallee() != nil && an.FuncKey(cc.StaticCallee()) == "(*sync.Mutex).Unlock" {
+				unl = true
+			}
+		})
+		if w == nil && !unl {
+			c.OK(sk(beginTx)+":returns-holding-muTr", "Lock on every path, no Unlock", p.Pos(beginTx.Pos()))
+		} else {
+			c.Fail(sk(beginTx)+":returns-holding-muTr", "BeginTx does not return holding the writer mutex: two write transactions can run at once on the shared batch", p.Pos(beginTx.Pos()), w...)
+		}
+	}
+	if beginRead != nil {
+		bad := false
+		an.Instrs(beginRead, func(in ssa.Instruction) {
+			if isMu(in, "Lock") {
+				bad = true
+			}
+		})
+		if bad {
+			c.Fail(sk(beginRead)+":no-lock", "BeginReadTx takes the writer mutex, but a read transaction's Rollback never releases it", p.Pos(beginRead.Pos()))
+		} else {
+			c.OK(sk(beginRead)+":no-lock", "read transactions do not take the writer mutex", p.Pos(beginRead.Pos()))
+		}
+	}
+	notRO := func(a an.Atom) bool { return a.Op == token.ILLEGAL && !a.Truth && strings.HasSuffix(p.Desc(a.X), ".readOnly") }
+	isRO := func(a an.Atom) bool { return a.Op == token.ILLEGAL && a.Truth && strings.HasSuffix(p.Desc(a.X), ".readOnly") }
+	for _, f := range []*ssa.Function{commit, rollback} {
+		if f == nil {
+			continue
+		}
+		// every return not under readOnly passes Unlock; no Unlock under readOnly
+		s := &an.Search{P: p, Fn: f, Cut: func(in ssa.Instruction) bool { return isMu(in, "Unlock") }, GoalReturn: func(r *ssa.Return, pred *ssa.BasicBlock) bool {
+			gs := p.Guards(r.Block())
+			if pred != nil {
+				if ea := edgeAtoms(p, pred, r.Block()); ea != nil {
+					gs = append(gs, *ea)
+				}
+				gs = append(gs, p.Guards(pred)...)
+			}
+			return !an.AnyAtom(gs, isRO)
+		}}
+		key := sk(f) + ":releases-muTr"
+		if w := s.Run(f.Blocks[0], 0, nil); w != nil {
+			c.Fail(key, "a write transaction can end without releasing the writer mutex: every later write transaction blocks forever", p.Pos(f.Pos()), w...)
+		} else {
+			c.OK(key, "Unlock on every non-read-only path", p.Pos(f.Pos()))
+		}
+		badRO := false
+		an.Instrs(f, func(in ssa.Instruction) {
+			if isMu(in, "Unlock") && !an.AnyAtom(p.GuardsOf(in), notRO) && f == rollback {
+				badRO = true
+			}
+		})
+		if f == rollback {
+			if badRO {
+				c.Fail(sk(f)+":no-unlock-for-readers", "Rollback of a read transaction unlocks a mutex it never took", p.Pos(f.Pos()))
+			} else {
+				c.OK(sk(f)+":no-unlock-for-readers", "Unlock only under !readOnly", p.Pos(f.Pos()))
+			}
+		}
+	}
 }
